@@ -26,6 +26,7 @@ printload:过程打印函数
 */
 void multicry_master::run_multicry(Aesmode **mode, const std::function<void(std::string, size_t)> &printload)
 {
+  WV_GHOST(wv_worker_mask = 0;)
   for (u8_t i = 0; i < THREADS_NUM; ++i)
     threads[i] = std::thread(multiruncrypt_file, i, std::ref((*mode[i])));
   buffergroup::get_instance()->run_buffer(printload);
